@@ -76,7 +76,7 @@ func readQueueNames(m *am.Machine, names am.S) []QMut {
 	out := []QMut{}
 	for _, mu := range m.Queue() {
 		if mu == nil {
-			out = append(out, QMut{Type: "<nil>"})
+			out = append(out, QMut{Type: "<nil>", Called: am.S{}})
 			continue
 		}
 		out = append(out, QMut{
